@@ -318,9 +318,14 @@ def execute(sc, ctx):
     if th:
         from .. import simthread
 
-        tcalls = [[k, w.abspath(f), a] for k, f, a in th["calls"] if os.path.isfile(w.abspath(f))]
+        # (bounded work: with 1..17-byte reads only small files take part, so the number of scheduling decisions stays
+        # in the ten-thousands; a real-time timeout of the simulator itself is not a verdict about the code)
+        limit = 4096 if profile == "tiny" else 1 << 22
+        tcalls = [[k, w.abspath(f), a] for k, f, a in th["calls"] if os.path.isfile(w.abspath(f)) and os.path.getsize(w.abspath(f)) <= limit]
         if len(tcalls) >= 2:
-            r = w.run_child(("pyfunc", simthread.run_lib_threads_job, (tcalls, th["sched_seed"], th["preempt"])), timeout=40)
+            r = w.run_child(("pyfunc", simthread.run_lib_threads_job, (tcalls, th["sched_seed"], th["preempt"])), timeout=60)
+            if r.outcome[0] == "hang":
+                raise core.HarnessError("threaded library job produced no result within 60 s of real time")
             if r.outcome[0] != "exit" or not isinstance(r.value, dict) or r.value["hang"]:
                 ctx.violate({"kind": "abort", "entry": "library-threads", "cause": r.extra.get("abort_type", r.brief())},
                             f"threaded library calls -> {r.brief()} {r.extra.get('abort_tb', '')[-500:]}")
